@@ -53,10 +53,17 @@ CoilWord(on) == IF on = 1 THEN <<255, 0>> ELSE <<0, 0>>
 EncReadSub(r)  == <<6>> \o U16(r.file) \o U16(r.rec) \o U16(r.len)
 EncWriteSub(r) == <<6>> \o U16(r.file) \o U16(r.rec) \o U16(Len(r.data)) \o Words(r.data)
 EncRspSub(r)   == <<2 * Len(r.data) + 1, 6>> \o Words(r.data)
+EncRspSubSwapped(r) == <<6, Len(r.data)>> \o Words(r.data)      \* deviation FileRspSubHeaderSwapped
 EncObj(o)      == <<o.id, Len(o.val)>> \o o.val
 
 (* ---- Encode ---------------------------------------------------------- *)
-Encode(m) ==
+(* D is a set of named deviations (see DESIGN.md 2.1); EncodeD(m, {}) is the standard.        *)
+(*   FifoCountIsByteLength   : the FIFO count field carries 2n instead of n                    *)
+(*   FileRspSubHeaderSwapped : read-file sub-response starts (0x06, words) not (length, 0x06)  *)
+(*   SlaveIdKeepsRunByte     : decoding keeps the run indicator inside the identifier          *)
+(*   FifoDecodeDropsFour     : decoding reads count-4 values                                   *)
+DevNames == {"FifoCountIsByteLength", "FileRspSubHeaderSwapped", "SlaveIdKeepsRunByte", "FifoDecodeDropsFour"}
+EncodeD(m, D) ==
   LET t == m.t IN
   CASE t = "Exception" -> <<(m.fc + 128) % 256, m.code>>
     [] t \in {"ReadCoilsReq", "ReadDiscreteReq", "ReadHoldingReq", "ReadInputReq"} ->
@@ -78,28 +85,31 @@ Encode(m) ==
                 \o <<(2 * Len(m.regs)) % 256>> \o Words(m.regs)
     [] t \in {"ExcStatusReq", "EventCounterReq", "EventLogReq", "SlaveIdReq"} -> <<FcOf(t)>>
     [] t = "ExcStatusRsp" -> <<7, m.status>>
-    [] t = "EventCounterRsp" -> <<11>> \o U16(IF m.ready = 1 THEN 65535 ELSE 0) \o U16(m.count)
+    [] t = "EventCounterRsp" -> <<11>> \o U16(IF m.ready = 1 THEN 0 ELSE 65535) \o U16(m.count)
     [] t = "EventLogRsp" ->
-         <<12, 6 + Len(m.events)>> \o U16(IF m.ready = 1 THEN 65535 ELSE 0)
+         <<12, 6 + Len(m.events)>> \o U16(IF m.ready = 1 THEN 0 ELSE 65535)
               \o U16(m.evcount) \o U16(m.msgcount) \o m.events
     [] t = "SlaveIdRsp" -> <<17, Len(m.id) + 1>> \o m.id \o <<IF m.run = 1 THEN 255 ELSE 0>>
     [] t \in {"DiagReq", "DiagRsp"} -> <<8>> \o U16(m.sub) \o Words(m.data)
     [] t = "ReadFileReq" ->
          <<20, (7 * Len(m.recs)) % 256>> \o Flatten([i \in 1..Len(m.recs) |-> EncReadSub(m.recs[i])])
     [] t = "ReadFileRsp" ->
-         LET body == Flatten([i \in 1..Len(m.recs) |-> EncRspSub(m.recs[i])])
+         LET body == Flatten([i \in 1..Len(m.recs) |->
+                        IF "FileRspSubHeaderSwapped" \in D THEN EncRspSubSwapped(m.recs[i]) ELSE EncRspSub(m.recs[i])])
          IN <<20, Len(body) % 256>> \o body
     [] t \in {"WriteFileReq", "WriteFileRsp"} ->
          LET body == Flatten([i \in 1..Len(m.recs) |-> EncWriteSub(m.recs[i])])
          IN <<21, Len(body) % 256>> \o body
     [] t = "FifoReq" -> <<24>> \o U16(m.addr)
     [] t = "FifoRsp" ->
-         <<24>> \o U16(2 + 2 * Len(m.regs)) \o U16(Len(m.regs)) \o Words(m.regs)
+         <<24>> \o U16(2 + 2 * Len(m.regs))
+                \o U16(IF "FifoCountIsByteLength" \in D THEN 2 * Len(m.regs) ELSE Len(m.regs)) \o Words(m.regs)
     [] t = "DevIdReq" -> <<43, 14, m.code, m.oid>>
     [] t = "DevIdRsp" ->
          <<43, 14, m.code, m.conf, m.more, m.next, Len(m.objs)>>
             \o Flatten([i \in 1..Len(m.objs) |-> EncObj(m.objs[i])])
 
+Encode(m) == EncodeD(m, {})
 PduLen(m) == Len(Encode(m))
 
 (* ---- Decode helpers --------------------------------------------------- *)
@@ -171,8 +181,8 @@ DecodeReq(b) ==
     [] fc = 11 -> IF n = 1 THEN [t |-> "EventCounterReq"] ELSE Malformed
     [] fc = 12 -> IF n = 1 THEN [t |-> "EventLogReq"] ELSE Malformed
     [] fc = 17 -> IF n = 1 THEN [t |-> "SlaveIdReq"] ELSE Malformed
-    [] fc = 8 ->
-         IF n >= 3 /\ (n - 1) % 2 = 0
+    [] fc = 8 ->    \* 6.8: sub-function + data; Return Query Data carries any N >= 1 words, every other request one word
+         IF n >= 5 /\ (n - 1) % 2 = 0 /\ (U16At(b,2) = 0 \/ n = 5)
          THEN [t |-> "DiagReq", sub |-> U16At(b,2), data |-> WordsAt(b, 4, (n - 3) \div 2)]
          ELSE Malformed
     [] fc = 20 ->
@@ -186,7 +196,7 @@ DecodeReq(b) ==
          IF n = 4 /\ b[2] = 14 THEN [t |-> "DevIdReq", code |-> b[3], oid |-> b[4]] ELSE Malformed
     [] OTHER -> Malformed
 
-DecodeRsp(b) ==
+DecodeRspD(b, D) ==
   IF Len(b) = 0 THEN Malformed ELSE
   LET fc == b[1] n == Len(b) IN
   CASE fc > 128 -> IF n = 2 THEN [t |-> "Exception", fc |-> fc - 128, code |-> b[2]] ELSE Malformed
@@ -208,19 +218,20 @@ DecodeRsp(b) ==
     [] fc = 7 -> IF n = 2 THEN [t |-> "ExcStatusRsp", status |-> b[2]] ELSE Malformed
     [] fc = 11 ->
          IF n = 5 /\ U16At(b,2) \in {0, 65535}
-         THEN [t |-> "EventCounterRsp", ready |-> IF U16At(b,2) = 65535 THEN 1 ELSE 0, count |-> U16At(b,4)]
+         THEN [t |-> "EventCounterRsp", ready |-> IF U16At(b,2) = 0 THEN 1 ELSE 0, count |-> U16At(b,4)]
          ELSE Malformed
     [] fc = 12 ->
          IF n >= 8 /\ b[2] = n - 2 /\ U16At(b,3) \in {0, 65535}
-         THEN [t |-> "EventLogRsp", ready |-> IF U16At(b,3) = 65535 THEN 1 ELSE 0,
+         THEN [t |-> "EventLogRsp", ready |-> IF U16At(b,3) = 0 THEN 1 ELSE 0,
                evcount |-> U16At(b,5), msgcount |-> U16At(b,7), events |-> Drop(b, 8)]
          ELSE Malformed
     [] fc = 17 ->
          IF n >= 3 /\ b[2] = n - 2 /\ b[n] \in {0, 255}
-         THEN [t |-> "SlaveIdRsp", id |-> SubSeq(b, 3, n - 1), run |-> IF b[n] = 255 THEN 1 ELSE 0]
+         THEN [t |-> "SlaveIdRsp", id |-> SubSeq(b, 3, IF "SlaveIdKeepsRunByte" \in D THEN n ELSE n - 1),
+               run |-> IF b[n] = 255 THEN 1 ELSE 0]
          ELSE Malformed
-    [] fc = 8 ->
-         IF n >= 3 /\ (n - 1) % 2 = 0
+    [] fc = 8 ->    \* echo of N words for sub 0, statistics block for sub 21 (Modbus Plus), one word otherwise
+         IF n >= 5 /\ (n - 1) % 2 = 0 /\ (U16At(b,2) \in {0, 21} \/ n = 5)
          THEN [t |-> "DiagRsp", sub |-> U16At(b,2), data |-> WordsAt(b, 4, (n - 3) \div 2)]
          ELSE Malformed
     [] fc = 20 ->
@@ -231,7 +242,9 @@ DecodeRsp(b) ==
          THEN [t |-> "WriteFileRsp", recs |-> ParseWriteSubs(b, 3)[2]] ELSE Malformed
     [] fc = 24 ->
          IF n >= 5 /\ U16At(b,4) <= 31 /\ U16At(b,2) = 2 + 2 * U16At(b,4) /\ n = 5 + 2 * U16At(b,4)
-         THEN [t |-> "FifoRsp", regs |-> WordsAt(b, 6, U16At(b,4))] ELSE Malformed
+         THEN [t |-> "FifoRsp", regs |-> WordsAt(b, 6, IF "FifoDecodeDropsFour" \in D
+                                                       THEN (IF U16At(b,4) >= 4 THEN U16At(b,4) - 4 ELSE 0)
+                                                       ELSE U16At(b,4))] ELSE Malformed
     [] fc = 43 ->
          IF n >= 7 /\ b[2] = 14 /\ ParseObjs(b, 8, b[7])[1]
          THEN [t |-> "DevIdRsp", code |-> b[3], conf |-> b[4], more |-> b[5], next |-> b[6],
@@ -239,7 +252,9 @@ DecodeRsp(b) ==
          ELSE Malformed
     [] OTHER -> Malformed
 
+DecodeRsp(b) == DecodeRspD(b, {})
 Decode(dir, b) == IF dir = "req" THEN DecodeReq(b) ELSE DecodeRsp(b)
+DecodeD(dir, b, D) == IF dir = "req" THEN DecodeReq(b) ELSE DecodeRspD(b, D)
 
 (* messages are compared up to zero padding of bit lists to a byte boundary *)
 Canon(m) ==
@@ -253,5 +268,8 @@ Expressible(m) ==
     [] t = "WriteCoilsReq" -> Len(m.bits) <= 2040
     [] t \in {"WriteRegsReq", "ReadWriteReq"} -> Len(m.regs) <= 127
     [] t = "FifoRsp" -> Len(m.regs) <= 31
+    [] t = "DiagReq" -> Len(m.data) >= 1 /\ (m.sub = 0 \/ Len(m.data) = 1)
+    [] t = "DiagRsp" -> Len(m.data) >= 1 /\ (m.sub \in {0, 21} \/ Len(m.data) = 1)
+    [] t = "DevIdRsp" -> Len(m.objs) <= 255
     [] OTHER -> TRUE
 =============================================================================
